@@ -242,8 +242,11 @@ impl Mac {
             .ok_or(Error::NoChannel)?;
         self.multicast.setup_send::<N>(&mut self.state, buf, &self.configuration, &self.region).map(
             |fcnt_up| {
+                // The level commanded by the network never lifts the limit of the radio itself
                 tx_config.adjust_power(
-                    self.configuration.tx_power.unwrap_or(self.board_eirp.max_power),
+                    self.configuration
+                        .tx_power
+                        .map_or(self.board_eirp.max_power, |p| p.min(self.board_eirp.max_power)),
                     self.board_eirp.antenna_gain,
                 );
                 (tx_config, fcnt_up)
